@@ -43,6 +43,9 @@ def kitchen_sink():
         {"name": "label2", "def": D("label")},
         {"name": "real_bag", "def": AGG("BAG", 0, None, T("real"))},
         {"name": "anything", "def": {"k": "select", "members": ["real_bag", "int_list", "wide"]}},
+        # a specialised defined type listed before the type it is defined from (positive_ratio_measure / ratio_measure in the AP schemas)
+        {"name": "pos_ratio", "def": D("ratio")},
+        {"name": "amount", "def": {"k": "select", "members": ["pos_ratio", "ratio", "cnt"]}},
     ]
     ents = [
         ENT("point", [A("x", T("real")), A("y", T("real")), A("name", D("label"), True)]),
@@ -82,9 +85,10 @@ def kitchen_sink():
         ENT("named", [A("nm1", T("string"))]),
         ENT("dated", [A("yr", T("int"))]),
         ENT("record", [A("payload", T("binary"))], supers=["named", "dated"]),
+        ENT("priced", [A("amt", D("amount")), A("amts", AGG("LIST", 0, None, D("amount")))]),
     ]
     return {"name": "kitchen_sink", "types": types, "entities": ents,
             "legal_complex": [["base", "left", "right"], ["vehicle", "powered", "wheeled"], ["craft", "plane", "drone"]],
             "simple_ok": ["point", "circle", "poly", "bag_of_stuff", "base", "left", "right", "both", "wrapper", "wrapper_d",
-                          "wide", "narrow", "class", "union", "vehicle", "boat", "plane", "drone", "named", "dated", "record"],
+                          "wide", "narrow", "class", "union", "vehicle", "boat", "plane", "drone", "named", "dated", "record", "priced"],
             "features": {"hand_written": True}}
